@@ -127,7 +127,7 @@ func Eval(src string, mode int) (res Result) {
 		SetRoot(&symbols.RootSymbolTable).
 		SetInteractive(false)
 
-	t := tokenizer.New(src+"\n@entrypoint main", true)
+	t := tokenizer.New(Alone(src)+"\n@entrypoint main", true)
 
 	comp.Fragment(true)
 
